@@ -3,3 +3,4 @@ import MudExec.OpsA
 import MudExec.OpsB
 import MudExec.OpsC
 import MudExec.OpsD
+import MudExec.OpsE
